@@ -1,7 +1,13 @@
 package props
 
 import (
+	"bufio"
+	"bytes"
+	"errors"
 	"fmt"
+	"github.com/go-netty/go-netty/codec/xhttp"
+	"io"
+	"net/http"
 	"runtime"
 	"sync"
 	"sync/atomic"
@@ -20,7 +26,7 @@ func init() {
 		Level: "exploration",
 		Rule: "trial = queued/sync channel, W writers using all entry points incl. ReadFrom (pooled chunk handed over without copy); every writer overwrites its buffer with 0xBB right after each call returns; " +
 			"scribbler goroutines continuously Get pooled buffers of every size class, fill them to capacity with 0xBB and Put them back; the sender is delayed/gated between draining, Writev and recycling so payloads sit in queue/batch meanwhile; " +
-			"oracle: every record on the wire is byte-identical (CRC + full compare) to the payload at call time; distinct_nontrivial = distinct event-order signatures among trials where pooled buffers were observed being recycled to a scribbler",
+			"oracle: every record on the wire is byte-identical (CRC + full compare) to the payload at call time; plus ReadFrom over short-piece readers with zero-length reads, a few Close-while-the-sender-is-inside-Writev trials, and HTTP response writers (pooled bufio buffers) that are open at the same time after earlier responses whose Close failed or was repeated; distinct_nontrivial = distinct event-order signatures among trials where pooled buffers were observed being recycled to a scribbler",
 		Assumptions: []string{"sync.Pool reuse is probabilistic: evidence counts how many scribbler Gets returned a buffer previously used by the channel (pool_reuse_seen)"},
 		Shards:      func(tier string) int { return 8 },
 		TimeoutSec:  func(tier string) int { return map[bool]int{true: 300, false: 1800}[tier != "thorough"] },
@@ -29,7 +35,257 @@ func init() {
 	})
 }
 
+// failAfter is a connection-side writer that fails from its k-th Write on (peer gone).
+type failAfter struct {
+	k   int
+	buf bytes.Buffer
+}
+
+func (f *failAfter) Write(p []byte) (int, error) {
+	if f.k--; f.k < 0 {
+		return 0, errors.New("c10 peer gone")
+	}
+	return f.buf.Write(p)
+}
+
+// c10ResponseWriters: the HTTP response writer keeps its output in a pooled bufio.Writer until it is flushed to the channel.
+// Whatever happened to earlier responses (a Close that failed because the peer was gone, a Close called twice - once by the
+// handler, once by the adapter), the buffered bytes of a response are its own: two responses that are open at the same time
+// each arrive on their own connection, well-formed and with their own body.
+func c10ResponseWriters(c *core.Ctx, id string, idx int) {
+	rng := c.Rand("response-writers", idx)
+	old := runtime.GOMAXPROCS(1) // what is put back into a sync.Pool is what the next Get sees
+	defer runtime.GOMAXPROCS(old)
+	runtime.GC()
+	runtime.GC()
+	req, _ := http.NewRequest("GET", "http://c10.test/", nil)
+	closeIt := func(w xhttp.ResponseWriter) error { return w.(io.Closer).Close() }
+	// earlier responses on connections that are gone
+	for k, n := 0, 1+rng.Intn(3); k < n; k++ {
+		rw := xhttp.NewResponseWriter(req, &failAfter{k: rng.Intn(2)})
+		rw.Header().Set("Content-Length", "5")
+		rw.Write([]byte("hello"))
+		_ = closeIt(rw)
+		if rng.Intn(2) == 0 {
+			_ = closeIt(rw) // the handler closed it, the adapter closes it again
+		}
+	}
+	type live struct {
+		sink *failAfter
+		rw   xhttp.ResponseWriter
+		body []byte
+	}
+	var ls []*live
+	for k := 0; k < 2+rng.Intn(2); k++ {
+		l := &live{sink: &failAfter{k: 1 << 30}}
+		l.rw = xhttp.NewResponseWriter(req, l.sink)
+		l.body = bytes.Repeat([]byte{byte('A' + k)}, 10+rng.Intn(500))
+		l.rw.Header().Set("Content-Length", fmt.Sprint(len(l.body)))
+		ls = append(ls, l)
+	}
+	for _, l := range ls { // all open at the same time
+		l.rw.Write(l.body)
+	}
+	for _, l := range ls {
+		_ = closeIt(l.rw)
+	}
+	c.Count("response_writer_sequences", 1)
+	c.Sig("response-writers", len(ls), idx%7)
+	for k, l := range ls {
+		resp, err := http.ReadResponse(bufio.NewReader(bytes.NewReader(l.sink.buf.Bytes())), req)
+		var body []byte
+		if err == nil {
+			body, err = io.ReadAll(resp.Body)
+		}
+		if err != nil || !bytes.Equal(body, l.body) || l.sink.buf.Len() > len(l.body)+400 {
+			c.Violation("C10:http-response-buffer-shared-between-responses", id,
+				fmt.Sprintf("response #%d of %d that were open at the same time (each on its own connection, after earlier responses whose Close failed / was repeated): its connection received %d bytes that do not parse to its own %d-byte body (err=%v, body %d bytes)", k, len(ls), l.sink.buf.Len(), len(l.body), err, len(body)), nil)
+			return
+		}
+	}
+}
+
+// scriptReader plays a fixed script of reads; a step with n == 0 returns (0, nil) and first runs its hook.
+type scriptReader struct {
+	steps []scriptStep
+	i     int
+}
+
+type scriptStep struct {
+	fill byte
+	n    int
+	hook func()
+}
+
+func (r *scriptReader) Read(p []byte) (int, error) {
+	if r.i >= len(r.steps) {
+		return 0, io.EOF
+	}
+	st := r.steps[r.i]
+	r.i++
+	if st.hook != nil {
+		st.hook()
+	}
+	for k := 0; k < st.n && k < len(p); k++ {
+		p[k] = st.fill
+	}
+	return st.n, nil
+}
+
+// c10ZeroReadScript: ReadFrom over a reader that returns (0, nil) once - while somebody else returns a buffer of ReadFrom's
+// size class to the pool - and then its data in two or three pieces, with the sender starting late. On one P the pool's
+// behaviour is deterministic. The pieces must reach the transport as they were read.
+func c10ZeroReadScript(c *core.Ctx, id string, idx int) {
+	rng := c.Rand("zero-read", idx)
+	old := runtime.GOMAXPROCS(1)
+	defer runtime.GOMAXPROCS(old)
+	runtime.GC()
+	runtime.GC()
+	plan := []mon.Step{{At: "x1", Occ: 1, Kind: mon.Gate, Until: "go", UntilCount: 1, Timeout: 2 * time.Second}}
+	rig := mon.NewRig(mon.RigOpts{Mode: mon.Blocking, Queue: 16, Plan: plan, QuietTail: true})
+	defer rig.Dispose()
+	held := pbytes.Get(1024)
+	giveBack := func() { *held = (*held)[:0]; pbytes.Put(held) }
+	var steps []scriptStep
+	var want []byte
+	zeroAt := rng.Intn(2)
+	pieces := 2 + rng.Intn(2)
+	for k := 0; k < pieces; k++ {
+		if k == zeroAt {
+			steps = append(steps, scriptStep{n: 0, hook: giveBack})
+		}
+		n := 8 + rng.Intn(200)
+		fill := byte('A' + k)
+		steps = append(steps, scriptStep{fill: fill, n: n})
+		want = append(want, bytes.Repeat([]byte{fill}, n)...)
+	}
+	if _, err := rig.Ch.ReadFrom(&scriptReader{steps: steps}); err != nil {
+		c.Inconclusive(id, "ReadFrom refused: "+err.Error())
+		return
+	}
+	rig.S.Mark("go")
+	if !rig.Ex.WaitOutstanding(1, 5*time.Second) {
+		c.Inconclusive(id, "watchdog: sender did not finish")
+		return
+	}
+	c.Count("zero_read_scripts", 1)
+	c.Sig("zero-read", zeroAt, pieces)
+	if wire := rig.T.Wire(); !bytes.Equal(wire, want) {
+		c.Violation("C10:wire-corrupt", id, fmt.Sprintf("ReadFrom over a reader with one (0, nil) read (during which another buffer of the 1024-byte class was returned to the pool) and %d data pieces, late sender: the transport received %d bytes that differ from the %d bytes read (first difference at %d)", pieces, len(wire), len(want), firstDiff(wire, want)), nil)
+	}
+}
+
+// c10CloseScript: Close is called while the sender is stalled inside its first Writev and more accepted payloads are
+// queued; while the Close is pending, other users of the pool take, scribble and return buffers of every size class; then
+// the stalled Writev goes on. Every payload that reaches the transport is byte-identical to what was written.
+func c10CloseScript(c *core.Ctx, id string, idx int) {
+	rng := c.Rand("close-script", idx)
+	old := runtime.GOMAXPROCS(1)
+	defer runtime.GOMAXPROCS(old)
+	runtime.GC()
+	runtime.GC()
+	// the first Writev has taken its data and is slow to return; a Writev that starts meanwhile waits before its data is looked at
+	plan := []mon.Step{{At: "tV1", Occ: 1, Kind: mon.Gate, Until: "release", UntilCount: 1, Timeout: 3 * time.Second},
+		{At: "tV0", Occ: 2, Kind: mon.Gate, Until: "release2", UntilCount: 1, Timeout: 3 * time.Second}}
+	tr := mon.NewRecTransport()
+	tr.SnapshotVec = true // the vectored write has set up its iovecs when it starts waiting
+	rig := mon.NewRig(mon.RigOpts{Mode: mon.Blocking, Queue: 16, Plan: plan, QuietTail: true, Tr: tr})
+	defer rig.Dispose()
+	sizes := []int{100, 700, 1024, 1500, 3000}
+	n := 3 + rng.Intn(4)
+	rig.Ch.Write1(mon.Payload(1, 0, sizes[rng.Intn(len(sizes))]))
+	if !rig.S.Await("tV1", 1, 3*time.Second) {
+		c.Inconclusive(id, "sender never reached its first Writev")
+		return
+	}
+	for k := 1; k < n; k++ {
+		rig.Ch.Write1(mon.Payload(1, k, sizes[rng.Intn(len(sizes))]))
+	}
+	closed := make(chan struct{})
+	go func() { defer close(closed); rig.Ch.Close(errSentinel) }()
+	// let the pending Close poll a few times, then churn the pool
+	for i := 0; i < 30; i++ {
+		time.Sleep(5 * time.Millisecond)
+		for _, cl := range []int{100, 1024, 2048, 4096} {
+			p := pbytes.Get(cl)
+			b := (*p)[:cap(*p)]
+			for j := range b {
+				b[j] = 0xEE
+			}
+			*p = b[:0]
+			pbytes.Put(p)
+		}
+	}
+	churn := func() {
+		for _, cl := range []int{100, 1024, 2048, 4096} {
+			for k := 0; k < 4; k++ {
+				p := pbytes.Get(cl)
+				b := (*p)[:cap(*p)]
+				for j := range b {
+					b[j] = 0xEE
+				}
+				*p = b[:0]
+				pbytes.Put(p)
+			}
+		}
+	}
+	rig.S.Mark("release")
+	for i := 0; i < 10; i++ {
+		time.Sleep(2 * time.Millisecond)
+		churn()
+	}
+	rig.S.Mark("release2")
+	select {
+	case <-closed:
+	case <-time.After(10 * time.Second):
+		c.Inconclusive(id, "watchdog: Close did not complete")
+		return
+	}
+	rig.Ex.WaitOutstanding(0, 5*time.Second)
+	c.Count("close_scripts", 1)
+	c.Sig("close-script", n)
+	_, wire := rig.T.Snapshot()
+	recs, perrs := mon.ParseWire(wire)
+	if len(perrs) > 0 {
+		c.Violation("C10:wire-corrupt", id, fmt.Sprintf("Close called while the sender was inside its first Writev with %d more payloads queued, pool traffic meanwhile: the transport received bytes that are not the payloads written: %s", n-1, perrs[0]), nil)
+		return
+	}
+	for _, r := range recs {
+		if !bytes.Equal(wire[r.Off:r.Off+r.Size], mon.Payload(r.W, r.Seq, r.Size)) {
+			c.Violation("C10:payload-altered", id, fmt.Sprintf("payload #%d differs on the wire from what was written", r.Seq), nil)
+			return
+		}
+	}
+}
+
 func runC10(c *core.Ctx) {
+	for i, n := 0, c.Scale(16, 320); i < n; i++ {
+		if !c.Mine(i) {
+			continue
+		}
+		id := fmt.Sprintf("close-script%d", i)
+		if c.CaseQuiet(id) {
+			c10CloseScript(c, id, i)
+		}
+	}
+	for i, n := 0, c.Scale(32, 640); i < n; i++ {
+		if !c.Mine(i) {
+			continue
+		}
+		id := fmt.Sprintf("zero-read%d", i)
+		if c.CaseQuiet(id) {
+			c10ZeroReadScript(c, id, i)
+		}
+	}
+	for i, n := 0, c.Scale(40, 800); i < n; i++ {
+		if !c.Mine(i) {
+			continue
+		}
+		id := fmt.Sprintf("response-writers%d", i)
+		if c.CaseQuiet(id) {
+			c10ResponseWriters(c, id, i)
+		}
+	}
 	total := c.Scale(16000, 160000)
 	stuck := 0
 	for idx := 0; idx < total; idx++ {
@@ -105,6 +361,29 @@ func runC10(c *core.Ctx) {
 		var stop int32
 		var gets, reuse int64
 		var sw sync.WaitGroup
+		if len(cfg.Entries) > 0 && cfg.Entries[0] == wl.EReadFromFrag {
+			// extra traffic in ReadFrom's own size class: buffers that are taken, scribbled, put back and taken again
+			for s := 0; s < 2; s++ {
+				sw.Add(1)
+				go func() {
+					defer sw.Done()
+					for i := 0; atomic.LoadInt32(&stop) == 0; i++ {
+						p, q := pbytes.Get(1024), pbytes.Get(1000)
+						for _, b := range []*[]byte{p, q} {
+							full := (*b)[:cap(*b)]
+							for j := range full {
+								full[j] = 0xBB
+							}
+							*b = full[:0]
+						}
+						pbytes.Put(p)
+						runtime.Gosched()
+						pbytes.Put(q)
+						atomic.AddInt64(&gets, 2)
+					}
+				}()
+			}
+		}
 		for s := 0; s < 3; s++ {
 			sw.Add(1)
 			go func(s int) {
